@@ -249,6 +249,60 @@ func run(thorough bool) func(shard, shards int, deadline time.Time) *explore.Res
 				}
 			}
 		}
+		// several updates in one message: each applies only if the value current at that moment (i.e. after the entries
+		// before it) equals its stated old value - reference: a sequential compare-and-set over a map
+		type upd struct{ key, old, val string }
+		k1, k2 := hex.EncodeToString([]byte("fxmc-c16-k1")), hex.EncodeToString([]byte("fxmc-c16-k2"))
+		vals := []string{"", "aa", "bb"}
+		var lists [][]upd
+		for _, o1 := range vals {
+			for _, o2 := range vals {
+				lists = append(lists, []upd{{k1, o1, "bb"}, {k1, o2, "cc"}}, []upd{{k1, o1, "bb"}, {k2, o2, "cc"}}, []upd{{k1, o1, ""}, {k1, o2, "cc"}})
+			}
+		}
+		for _, l := range lists {
+			bctx := world.Branch(ctx)
+			ref := map[string]string{k1: "aa", k2: ""}
+			kb1, _ := hex.DecodeString(k1)
+			scen.Store(w, bctx, "eth").Set(kb1, []byte{0xaa})
+			pre := w.Digest(bctx)
+			msg := &fxgovtypes.MsgUpdateStore{Authority: gov}
+			refOK := true
+			name := "UpdateStore["
+			for _, u := range l {
+				msg.UpdateStores = append(msg.UpdateStores, fxgovtypes.UpdateStore{Space: "eth", Key: u.key, OldValue: u.old, Value: u.val})
+				name += fmt.Sprintf(" %s:%q->%q", u.key[len(u.key)-2:], u.old, u.val)
+				if refOK && ref[u.key] == u.old {
+					ref[u.key] = u.val
+				} else {
+					refOK = false
+				}
+			}
+			name += " ] on k1=aa"
+			r := w.Deliver(bctx, msg)
+			res.Transitions++
+			res.Extra["evaluations"]++
+			res.Outcomes[fmt.Sprintf("update-store-list/applied=%v", r.OK())]++
+			if r.Panic != nil {
+				continue
+			}
+			if r.OK() != refOK {
+				viol("C16/raw-store-update-list-ignores-current-value", "compare-and-set", fmt.Sprintf("%s: reference (sequential compare-and-set) accepts=%v, implementation %s", name, refOK, r), name)
+				continue
+			}
+			if !r.OK() {
+				if w.Digest(bctx) != pre {
+					viol("C16/rejected-raw-store-update-changed-state", "rejection-changes-nothing", name, name)
+				}
+				continue
+			}
+			for k, want := range ref {
+				kb, _ := hex.DecodeString(k)
+				if got := hex.EncodeToString(scen.Store(w, bctx, "eth").Get(kb)); got != want {
+					viol("C16/raw-store-update-wrote-wrong-value", "compare-and-set", fmt.Sprintf("%s: key %s holds %q, expected %q", name, k[len(k)-2:], got, want), name)
+				}
+			}
+		}
 		res.States = res.Counters["payloads-accepted-with-gov-authority"] + res.Counters["privileged-message-types"]
 		res.Extra["distinct_nontrivial"] = float64(res.Counters["payloads-accepted-with-gov-authority"])
 		res.WallS = time.Since(start).Seconds()
